@@ -49,6 +49,11 @@ class JVal:
     def string(self, st):
         if self.sval is None:
             self.sval = fresh_seq('str', self.name + '_s', st.assume)
+            if '.urls' not in self.name:
+                # text supplied by the proofreader (rule URLs, used as href
+                # with --link only, are not among the texts the HTML
+                # property C16 speaks about: see DESIGN)
+                self.sval.tag = 'raw'
         return self.sval
 
     # -- protocol used by the engine
